@@ -635,3 +635,264 @@ def build_T8g(tree):
 
 
 TARGETS['T8g'] = {'file': 'seg/sop.py', 'build': build_T8g}
+
+
+# ---------------------------------------------------------------- second pass: expressions of the hand-modelled loops
+class _Subst(ast.NodeTransformer):
+    """Replace sub-expressions by their unparsed text -> replacement source; map numpy element-wise functions to scalars."""
+    def __init__(self, table, funcs=None):
+        self.table = table
+        self.funcs = funcs or {}
+
+    def generic_visit(self, node):
+        if isinstance(node, ast.expr):
+            txt = ast.unparse(node)
+            if txt in self.table:
+                return ast.parse(self.table[txt], mode='eval').body
+        return super().generic_visit(node)
+
+    def visit_Call(self, node):
+        txt = ast.unparse(node)
+        if txt in self.table:
+            return ast.parse(self.table[txt], mode='eval').body
+        f = ast.unparse(node.func)
+        node = super().generic_visit(node)
+        if f in self.funcs:
+            kind = self.funcs[f]
+            if kind in ('max', 'min') and len(node.args) == 2 and not node.keywords:
+                return ast.Call(func=ast.Name(id=kind, ctx=ast.Load()), args=node.args, keywords=[])
+            if kind == 'and' and len(node.args) == 2 and not node.keywords:
+                return ast.BoolOp(op=ast.And(), values=node.args)
+            if kind == '+' and len(node.args) == 2 and not node.keywords:
+                return ast.BinOp(left=node.args[0], op=ast.Add(), right=node.args[1])
+            raise Unsupported(f'{f} used with unexpected arguments: {txt}')
+        return node
+
+
+_ELEMENTWISE = {'np.maximum': 'max', 'np.minimum': 'min', 'np.logical_and': 'and', 'np.add': '+'}
+
+
+def _ret_expr(e):
+    r = ast.Return(value=e)
+    ast.fix_missing_locations(r)
+    return r
+
+
+def build_T8j(tree):
+    """The combination loop of `_get_pixels_by_seg_frame` (BINARY / FRACTIONAL, `combine_segments`), one pixel at a time:
+    which stored values a FRACTIONAL frame may hold, what they are divided by, the overlap test, the update.  The array
+    operations are rendered for one pixel `p` of the frame and the pixel `o` of the output it meets
+    (`pixel_array` -> p, `out_array[output_indexer]` -> o, `np.maximum/np.logical_and` -> max/and); the reductions
+    (`.all()` over the frame's values, `np.any` over the pixels) and the order test - test - update are checked here.
+    Model: `SegRead.combineStep`; bridge: Proofs/SegReadTie.lean."""
+    fn = _seg_frame(tree)
+    i_resc = _top_if(fn, lambda t: t == 'will_be_rescaled', '`if will_be_rescaled:`')
+    comb = None
+    for s in fn.body[fn.body.index(i_resc) + 1:]:
+        if isinstance(s, ast.If) and _norm(s.test) == 'combine_segments':
+            comb = s
+    if comb is None:
+        raise Unsupported('`if combine_segments:` of the BINARY/FRACTIONAL branch not found')
+    loops = [s for s in comb.body if isinstance(s, ast.For)]
+    if len(loops) != 1 or _norm(loops[0].iter) != 'indices_iterator':
+        raise Unsupported('combination loop over indices_iterator not found')
+    loop = loops[0]
+    tnames = [e.id for e in loop.target.elts] if isinstance(loop.target, ast.Tuple) else []
+    if tnames != ['frame_index', 'input_indexer', 'output_indexer', 'seg_n']:
+        raise Unsupported(f'combination loop target changed: {tnames}')
+    body = loop.body
+    src = [_norm(s) for s in body]
+    need = ['pix_value=intermediate_dtype.type(seg_n[0])', 'pixel_array=self.get_stored_frame(frame_index+1)',
+            'pixel_array=pixel_array[input_indexer]']
+    if src[:3] != need:
+        raise Unsupported('combination loop no longer starts with pix_value / get_stored_frame / input_indexer')
+    frac = [s for s in body if isinstance(s, ast.If) and _norm(s.test) == 'self.segmentation_type==SegmentationTypeValues.FRACTIONAL']
+    ovl = [s for s in body if isinstance(s, ast.If) and _norm(s.test) == 'notskip_overlap_checks']
+    upd = [s for s in body if isinstance(s, ast.Assign) and _norm(s.targets[0]) == 'out_array[output_indexer]']
+    if len(frac) != 1 or len(ovl) != 1 or len(upd) != 1 or not (body.index(frac[0]) < body.index(ovl[0]) < body.index(upd[0])):
+        raise Unsupported('combination loop: FRACTIONAL test, overlap test, update not found in this order')
+    if len(body) != 6:
+        raise Unsupported('combination loop has statements besides the six known ones')
+    # ---- FRACTIONAL block
+    fb = frac[0].body
+    isb = fb[0]
+    v = isb.value if isinstance(isb, ast.Assign) else None
+    ok = (isinstance(v, ast.Call) and isinstance(v.func, ast.Attribute) and v.func.attr == 'all' and not v.args
+          and isinstance(v.func.value, ast.Call) and ast.unparse(v.func.value.func) == 'np.isin'
+          and _norm(v.func.value.args[0]) == 'np.unique(pixel_array)'
+          and isinstance(v.func.value.args[1], ast.Call) and ast.unparse(v.func.value.args[1].func) == 'np.array'
+          and isinstance(v.func.value.args[1].args[0], ast.List))
+    if not ok or _norm(isb.targets[0]) != 'is_binary':
+        raise Unsupported('is_binary is no longer np.isin(np.unique(pixel_array), np.array([...])).all()')
+    allowed = v.func.value.args[1].args[0].elts
+    if not (isinstance(fb[1], ast.If) and _norm(fb[1].test) == 'notis_binary' and isinstance(fb[1].body[0], ast.Raise)
+            and 'ValueError' in ast.unparse(fb[1].body[0])):
+        raise Unsupported('`if not is_binary: raise ValueError` not found')
+    div = fb[2]
+    if not (isinstance(div, ast.Assign) and _norm(div.targets[0]) == 'pixel_array'):
+        raise Unsupported('division of the FRACTIONAL frame not found')
+    sub = {'pixel_array': 'p', 'out_array[output_indexer]': 'o'}
+    member = ast.BoolOp(op=ast.Or(), values=[ast.Compare(left=ast.Name(id='p', ctx=ast.Load()), ops=[ast.Eq()], comparators=[e])
+                                             for e in allowed])
+    attrs = {'self.MaximumFractionalValue': ('int', 'mfv')}
+    t1 = translate_block([_ret_expr(member)], 'combBinaryValue', [('p', 'int')], attrs,
+                         doc='combination loop: a stored value a FRACTIONAL frame may hold (member of the list given to np.isin)')
+    t2 = translate_block([_ret_expr(_Subst(sub, _ELEMENTWISE).visit(copy.deepcopy(div.value)))], 'combDivide', [('p', 'int')], attrs,
+                         doc='combination loop: the FRACTIONAL frame value after the division')
+    # ---- overlap test
+    ob = ovl[0].body
+    if not (len(ob) == 1 and isinstance(ob[0], ast.If) and isinstance(ob[0].test, ast.Call) and ast.unparse(ob[0].test.func) == 'np.any'
+            and len(ob[0].test.args) == 1 and isinstance(ob[0].body[0], ast.Raise) and 'RuntimeError' in ast.unparse(ob[0].body[0])):
+        raise Unsupported('overlap test is no longer `if np.any(<elementwise>): raise RuntimeError`')
+    t3 = translate_block([_ret_expr(_Subst(sub, _ELEMENTWISE).visit(copy.deepcopy(ob[0].test.args[0])))], 'combOverlapAt',
+                         [('p', 'int'), ('o', 'int')], {}, doc='combination loop: the overlap test at one pixel (reduced with np.any)')
+    # ---- update
+    t4 = translate_block([_ret_expr(_Subst(sub, _ELEMENTWISE).visit(copy.deepcopy(upd[0].value)))], 'combUpdateAt',
+                         [('p', 'int'), ('pix_value', 'int'), ('o', 'int')], {},
+                         doc='combination loop: the new value of one output pixel')
+    return '\n\n'.join([t1, t2, t3, t4]), span_sha(body)
+
+
+TARGETS['T8j'] = {'file': 'seg/sop.py', 'build': build_T8j}
+
+
+class _RemapReturns(ast.NodeTransformer):
+    """return range(A, B) -> (1, A, B); return segment_numbers -> (2, 0, 0); return None -> (0, 0, 0)"""
+    def visit_Return(self, node):
+        v = node.value
+        if v is None or (isinstance(v, ast.Constant) and v.value is None):
+            src = '(0, 0, 0)'
+        elif isinstance(v, ast.Name) and v.id == 'segment_numbers':
+            src = '(2, 0, 0)'
+        elif isinstance(v, ast.Call) and ast.unparse(v.func) == 'range' and len(v.args) == 2 and not v.keywords:
+            src = f'(1, {ast.unparse(v.args[0])}, {ast.unparse(v.args[1])})'
+        elif isinstance(v, ast.Call) and ast.unparse(v.func) == 'range' and len(v.args) == 1 and not v.keywords:
+            src = f'(1, 0, {ast.unparse(v.args[0])})'
+        else:
+            raise Unsupported('_get_segment_remap_values returns something else: ' + ast.unparse(node))
+        return ast.copy_location(ast.parse('return ' + src).body[0], node)
+
+
+_READ_ENTRIES = ['get_pixels_by_source_instance', 'get_pixels_by_source_frame', 'get_volume',
+                 'get_pixels_by_dimension_index_values', 'get_total_pixel_matrix']
+_FORWARDED = ['segment_numbers', 'combine_segments', 'relabel', 'rescale_fractional', 'skip_overlap_checks', 'dtype']
+
+
+def build_T8k(tree):
+    """How a request reaches the frame loop: `_get_segment_remap_values` (which output value each requested segment gets),
+    the default output channel of `_Image._prepare_channel_tables` (image.py, read from the same tree) and its pairing of
+    output channel with requested value, and the options every read entry point hands to `_get_pixels_by_seg_frame`,
+    to `_get_segment_remap_values` and to the channel table.  Model: `remapValues`, `chanTable`, `read` (the request is passed on
+    unchanged); bridges in Proofs/SegReadTie.lean."""
+    import os
+    fn = find_func(tree, 'Segmentation._get_segment_remap_values')
+    body = [_RemapReturns().visit(copy.deepcopy(s)) for s in strip_doc(fn.body)]
+    for s in body:
+        ast.fix_missing_locations(s)
+    t1 = translate_block(body, 'remapKind', [('combine_segments', 'bool'), ('relabel', 'bool')],
+                         {'len(segment_numbers)': ('int', 'nRequested')},
+                         doc='`_get_segment_remap_values`: (0,_,_) = None, (1,a,b) = range(a, b), (2,_,_) = the segment numbers themselves')
+    repo = os.environ.get('HD_REPO', '/repo')
+    itree = ast.parse(open(os.path.join(repo, 'src', 'highdicom', 'image.py')).read())
+    pc = find_func(itree, '_Image._prepare_channel_tables')
+    default = [n for n in ast.walk(pc) if isinstance(n, ast.Assign) and _norm(n.targets[0]) == 'output_channel_indices'
+               and isinstance(n.value, ast.Call) and ast.unparse(n.value.func) == 'range']
+    if len(default) != 1:
+        raise Unsupported('_prepare_channel_tables: default `output_channel_indices = range(...)` not found')
+    ra = default[0].value.args
+    lo, hi = ('0', ast.unparse(ra[0])) if len(ra) == 1 else (ast.unparse(ra[0]), ast.unparse(ra[1]))
+    t2 = translate_block([ast.parse(f'return ({lo}, {hi})').body[0]], 'defaultChannels', [('num_channels', 'int')], {},
+                         doc='`_prepare_channel_tables`: output channels when no remapping is given: range(lo, hi)')
+    zips = [n for n in ast.walk(pc) if isinstance(n, ast.Call) and ast.unparse(n.func) == 'zip']
+    if len(zips) != 1 or [_norm(a) for a in zips[0].args] != ['output_channel_indices', '*channel_indices_dict.values()']:
+        raise Unsupported('_prepare_channel_tables: rows are no longer zip(output_channel_indices, *values)')
+    if "OutputChannelIndexINTEGERUNIQUENOTNULL" not in _norm(pc):
+        raise Unsupported('_prepare_channel_tables: OutputChannelIndex is no longer the first, UNIQUE column')
+    rows = []
+    for name in _READ_ENTRIES:
+        ef = find_func(tree, 'Segmentation.' + name)
+        calls = [n for n in ast.walk(ef) if isinstance(n, ast.Call)]
+        core = [c for c in calls if ast.unparse(c.func) in ('self._get_pixels_by_seg_frame', 'self.get_total_pixel_matrix')
+                and any(k.arg == 'combine_segments' for k in c.keywords)]
+        if not core:
+            raise Unsupported(f'{name}: call of _get_pixels_by_seg_frame not found')
+        for c in core:
+            kws = {k.arg: ast.unparse(k.value) for k in c.keywords}
+            for opt in _FORWARDED:
+                if opt not in kws:
+                    raise Unsupported(f'{name}: option {opt} is not handed on')
+                rows.append((name, 'frames:' + opt, kws[opt]))
+        rm = [c for c in calls if ast.unparse(c.func) == 'self._get_segment_remap_values']
+        if len(rm) != 1:
+            raise Unsupported(f'{name}: call of _get_segment_remap_values not found')
+        args = [ast.unparse(a) for a in rm[0].args] + [''] * 3
+        kws = {k.arg: ast.unparse(k.value) for k in rm[0].keywords}
+        rows.append((name, 'remap:segment_numbers', kws.get('segment_numbers', args[0])))
+        rows.append((name, 'remap:combine_segments', kws.get('combine_segments', args[1])))
+        rows.append((name, 'remap:relabel', kws.get('relabel', args[2])))
+        ch = [n for n in ast.walk(ef) if isinstance(n, ast.Dict) and len(n.keys) == 1 and isinstance(n.keys[0], ast.Constant)
+              and n.keys[0].value == 'ReferencedSegmentNumber' and isinstance(n.values[0], (ast.Name, ast.Call))]
+        if not ch:
+            raise Unsupported(f'{name}: channel indices {{ReferencedSegmentNumber: ...}} not found')
+        for c in ch:
+            rows.append((name, 'channel:segment_numbers', ast.unparse(c.values[0])))
+        it = [c for c in calls if ast.unparse(c.func) in ('self._iterate_indices_for_stack', 'self._iterate_indices_for_tiled_region')]
+        for c in it:
+            kws = {k.arg: ast.unparse(k.value) for k in c.keywords}
+            rows.append((name, 'iterate:remap_channel_indices', kws.get('remap_channel_indices', '?')))
+            rows.append((name, 'iterate:channel_indices', kws.get('channel_indices', '?')))
+    t3 = ('/-- what every read entry point hands on: (entry point, receiver:parameter, argument expression) -/\n'
+          'def forwarding : List (String × String × String) :=\n  [' +
+          ',\n   '.join('("%s", "%s", "%s")' % (a, b, c.replace('"', '\\"')) for a, b, c in rows) + ']')
+    return '\n\n'.join([t1, t2, t3]), span_sha(strip_doc(fn.body)) + hashlib.sha256(repr(rows).encode()).hexdigest()[:12]
+
+
+import hashlib  # noqa: E402
+
+TARGETS['T8k'] = {'file': 'seg/sop.py', 'build': build_T8k}
+
+
+def build_T8m(tree):
+    """What happens to the frames after they are read: LABELMAP one-hot expansion (`np.eye(SIZE)[values]`, columns from START
+    on) and the FRACTIONAL rescaling (guard on the largest value, divisor).  Model: `oneHot`, the tail of `stackRead`."""
+    fn = _seg_frame(tree)
+    lm = _top_if(fn, lambda t: t == 'self.segmentation_type==SegmentationTypeValues.LABELMAP', 'LABELMAP branch')
+    oh = [s for s in lm.body if isinstance(s, ast.If) and _norm(s.test) == 'notcombine_segments']
+    if len(oh) != 1:
+        raise Unsupported('LABELMAP branch: `if not combine_segments:` (one-hot) not found')
+    eye = [n for n in ast.walk(oh[0]) if isinstance(n, ast.Subscript) and isinstance(n.value, ast.Call)
+           and ast.unparse(n.value.func) == 'np.eye' and _norm(n.slice) == 'flat_array']
+    if len(eye) != 1 or len(eye[0].value.args) != 1:
+        raise Unsupported('one-hot is no longer np.eye(SIZE, dtype=...)[flat_array]')
+    if not any(isinstance(s, ast.Assign) and _norm(s) == 'flat_array=out_array.flatten()' for s in oh[0].body):
+        raise Unsupported('flat_array = out_array.flatten() not found')
+    cut = [n for n in ast.walk(oh[0]) if isinstance(n, ast.Subscript) and _norm(n.value) == 'out_array'
+           and isinstance(n.slice, ast.Tuple) and len(n.slice.elts) == 2 and isinstance(n.slice.elts[1], ast.Slice)]
+    if len(cut) != 1 or _norm(cut[0].slice.elts[0]) != ':' or cut[0].slice.elts[1].upper is not None or cut[0].slice.elts[1].step is not None:
+        raise Unsupported('background column is no longer removed as out_array[:, START:]')
+    start = cut[0].slice.elts[1].lower or ast.Constant(value=0)
+    shp = [s for s in oh[0].body if isinstance(s, ast.Assign) and _norm(s.targets[0]) == 'out_shape']
+    if len(shp) != 1 or _norm(shp[0].value) != '(*shape,num_output_segments)':
+        raise Unsupported('out_shape is no longer (*shape, num_output_segments)')
+    t1 = translate_block([ast.parse(f'return ({ast.unparse(eye[0].value.args[0])}, {ast.unparse(start)})').body[0]], 'oneHotShape',
+                         [('num_output_segments', 'int')], {},
+                         doc='LABELMAP one-hot: (size of the identity matrix, first column kept)')
+    # ---- rescaling
+    tail = [s for s in ast.walk(fn) if isinstance(s, ast.If) and _norm(s.test) == 'rescale_fractional'
+            and any(isinstance(x, ast.If) and 'FRACTIONAL' in _norm(x.test) for x in s.body)]
+    if len(tail) != 1:
+        raise Unsupported('`if rescale_fractional: if FRACTIONAL:` tail not found')
+    inner = [x for x in tail[0].body if isinstance(x, ast.If)][0].body
+    if len(inner) != 3 or not isinstance(inner[0], ast.If) or not isinstance(inner[1], ast.Assign) or not isinstance(inner[2], ast.Assign):
+        raise Unsupported('rescaling tail is no longer guard / max_val / division')
+    if _norm(inner[2]) != 'out_array=out_array.astype(dtype)/max_val' or _norm(inner[1].targets[0]) != 'max_val':
+        raise Unsupported('rescaling is no longer out_array.astype(dtype) / max_val')
+    blk = [copy.deepcopy(inner[0]), copy.deepcopy(inner[1]), ast.parse('return max_val').body[0]]
+    for s in blk:
+        ast.fix_missing_locations(s)
+    t2 = translate_block(blk, 'rescaleGuard', [], {'out_array.max()': ('int', 'outMax'), 'self.MaximumFractionalValue': ('int', 'mfv')},
+                         doc='FRACTIONAL rescaling: refusal on the largest value read, else the divisor')
+    return t1 + '\n\n' + t2, span_sha(oh[0].body) + span_sha(inner)[:8]
+
+
+TARGETS['T8m'] = {'file': 'seg/sop.py', 'build': build_T8m}
